@@ -372,6 +372,8 @@ type Clause struct {
 }
 
 type LoopContract struct {
+	BodyEnsures []*Clause // checked at the end of every iteration and on every exit from the body
+	IterEnsures []*Clause // checked at the end of every completed iteration (back edge) only
 	Invariants []*Clause
 	Decreases  *Clause
 	Assigns    []string
@@ -387,9 +389,11 @@ type FuncContract struct {
 	Loops     map[int]*LoopContract
 	Pure      bool
 	Trusted   bool // assumed, body not verified
+	TrustFrame bool // the frame (assigns) is trusted, postconditions are verified
 	NoInline  bool
 	Fresh     []int // result indexes that are fresh allocations
 	Decreases *Clause
+	LastCall  string // higher-order summary: the function's outcome is that of the last call of this func-typed parameter
 	Notes     []string
 	Src       string
 	IsSpec    bool // from /verif/specs (dependency)
@@ -397,6 +401,7 @@ type FuncContract struct {
 }
 
 type SpecFunc struct {
+	Pkg    string // package of the defining contract file (unqualified names in the body resolve there)
 	Name   string
 	Params []QVar
 	Result string
@@ -427,6 +432,7 @@ type GlobalInv struct {
 }
 
 type Contracts struct {
+	Ghosts  map[string]Sort // ghost state components: name -> SMT sort
 	Globals []*GlobalInv
 	Funcs  map[string]*FuncContract
 	Specs  map[string]*SpecFunc
@@ -437,7 +443,7 @@ type Contracts struct {
 }
 
 func NewContracts() *Contracts {
-	return &Contracts{Funcs: map[string]*FuncContract{}, Specs: map[string]*SpecFunc{}, Types: map[string]*TypeContract{}}
+	return &Contracts{Ghosts: map[string]Sort{}, Funcs: map[string]*FuncContract{}, Specs: map[string]*SpecFunc{}, Types: map[string]*TypeContract{}}
 }
 
 var clauseHead = regexp.MustCompile(`^(requires|ensures|assert)(\[[A-Za-z0-9, ]*\])?\s+(.*)$`)
@@ -458,7 +464,7 @@ func (cs *Contracts) ParseContractFile(path string, pkgName string, isSpec bool)
 		line int
 	}
 	var lines []lline
-	heads := []string{"func ", "type ", "spec ", "axiom ", "lemma ", "global ", "props ", "arith ", "requires", "ensures", "assigns", "loop ", "pure", "trusted", "noinline", "fresh ", "note ", "assert", "invariant ", "guarded_by ", "immutable", "decreases ", "ghost "}
+	heads := []string{"func ", "type ", "spec ", "axiom ", "lemma ", "global ", "props ", "arith ", "requires", "ensures", "assigns", "loop ", "pure", "trusted", "trustframe", "noinline", "fresh ", "note ", "assert", "invariant ", "guarded_by ", "immutable", "decreases ", "ghost ", "lastcall "}
 	for i, raw := range strings.Split(string(data), "\n") {
 		s := strings.TrimSpace(raw)
 		if !strings.HasPrefix(s, "//@") {
@@ -538,7 +544,10 @@ func (cs *Contracts) ParseContractFile(path string, pkgName string, isSpec bool)
 				cs.Errors = append(cs.Errors, src+": bad spec func: "+s)
 				continue
 			}
-			sf := &SpecFunc{Name: m[1], Result: m[3], Src: src}
+			sf := &SpecFunc{Name: m[1], Result: m[3], Src: src, Pkg: pkgName}
+			if old, dup := cs.Specs[sf.Name]; dup {
+				cs.Errors = append(cs.Errors, fmt.Sprintf("%s: spec function %s already defined at %s", src, sf.Name, old.Src))
+			}
 			for _, p := range strings.Split(m[2], ",") {
 				p = strings.TrimSpace(p)
 				if p == "" {
@@ -606,7 +615,7 @@ func (cs *Contracts) ParseContractFile(path string, pkgName string, isSpec bool)
 					curT.Immutable[f] = true
 				}
 			}
-		case curF == nil:
+		case curF == nil && !strings.HasPrefix(s, "ghost "):
 			cs.Errors = append(cs.Errors, src+": clause outside func/type block: "+s)
 		case strings.HasPrefix(s, "props "):
 			curF.Props = append(curF.Props, strings.Fields(s[6:])...)
@@ -617,6 +626,8 @@ func (cs *Contracts) ParseContractFile(path string, pkgName string, isSpec bool)
 			curF.Pure = true
 		case s == "trusted":
 			curF.Trusted = true
+		case s == "trustframe":
+			curF.TrustFrame = true
 		case s == "noinline":
 			curF.NoInline = true
 		case strings.HasPrefix(s, "fresh "):
@@ -635,8 +646,14 @@ func (cs *Contracts) ParseContractFile(path string, pkgName string, isSpec bool)
 					curF.Assigns = append(curF.Assigns, a)
 				}
 			}
+		case strings.HasPrefix(s, "lastcall "):
+			curF.LastCall = strings.TrimSpace(s[9:])
 		case strings.HasPrefix(s, "ghost "):
-			// documentation only: ghost components are created on first use
+			// ghost <name> <smt sort>
+			f := strings.SplitN(strings.TrimSpace(s[6:]), " ", 2)
+			if len(f) == 2 {
+				cs.Ghosts[f[0]] = Sort(strings.TrimSpace(f[1]))
+			}
 		case strings.HasPrefix(s, "decreases "):
 			curF.Decreases = mkClause("decreases", "", strings.TrimSpace(s[10:]), src)
 		case strings.HasPrefix(s, "loop "):
@@ -670,6 +687,14 @@ func (cs *Contracts) ParseContractFile(path string, pkgName string, isSpec bool)
 				}
 				if c := mkClause("invariant", tag, rest, src); c != nil {
 					lc.Invariants = append(lc.Invariants, c)
+				}
+			case "iter_ensures":
+				if c := mkClause("iter_ensures", tag, rest, src); c != nil {
+					lc.IterEnsures = append(lc.IterEnsures, c)
+				}
+			case "body_ensures":
+				if c := mkClause("body_ensures", tag, rest, src); c != nil {
+					lc.BodyEnsures = append(lc.BodyEnsures, c)
 				}
 			case "decreases":
 				lc.Decreases = mkClause("decreases", "", rest, src)
